@@ -88,6 +88,8 @@ def request(iface, app, root, path, host=None, log=None):
         untouched = all(env.get(k) == v for k, v in before.items()) and set(env) == set(before)
     else:
         scope = SV.to_scope(req)
+        if root == "" and len(path) % 2 == 0:
+            del scope["root_path"]  # optional in ASGI (default ""); a server may leave it out
         before = copy.deepcopy(scope)
         res = SV.run_asgi(app, scope, SV.to_messages(req))
         untouched = scope == before
